@@ -622,7 +622,9 @@ theorem readKeyC_cost (terms : B → Bool) {d : B} {p : Nat} (hp : p ≤ d.lengt
         simp only [List.length_take, List.length_drop]; omega
       dsimp only at hx ⊢
       generalize (if len = 0 then 4 else len) = n at hx hl ⊢
-      split at hx <;> (cases hx; exact ⟨by omega, by omega, by show 2 + (4 + _) ≤ _; omega⟩)
+      split at hx
+      · cases hx
+      · split at hx <;> (cases hx; exact ⟨by omega, by omega, by show 2 + (4 + _) ≤ _; omega⟩)
   · rw [readKeyC_fst] at hx
     unfold readKeyC
     unfold Globals.readKey at hx
@@ -635,8 +637,19 @@ theorem readKeyC_cost (terms : B → Bool) {d : B} {p : Nat} (hp : p ≤ d.lengt
       refine ⟨by decide, ?_⟩
       show 1 + min 4 (d.length - p) ≤ _
       omega
-    · dsimp only at hx
-      split at hx <;> split at hx <;> cases hx
+    · rename_i len p1 h32
+      have h1 := greadU32_ok h32
+      rw [h32]
+      have hl : ((d.drop p1).take (if len = 0 then 4 else len)).length ≤ d.length - p1 := by
+        simp only [List.length_take, List.length_drop]; omega
+      dsimp only at hx ⊢
+      generalize (if len = 0 then 4 else len) = n at hx hl ⊢
+      split at hx
+      · cases hx   -- a key cut short by the end of the stream (repo commit bb0349d)
+        refine ⟨by decide, ?_⟩
+        show 2 + (4 + _) ≤ _
+        omega
+      · split at hx <;> cases hx
 
 /-! ### `try … except IOError` -/
 
